@@ -118,8 +118,8 @@ func (c *Ctx) FreshGlobal(hint string, s Sort) Term {
 
 // Name binds t to a fresh constant (sharing).
 func (c *Ctx) Name(hint string, t Term) Term {
-	if len(t.S) < 24 {
-		return t
+	if len(t.S) < 24 || !strings.ContainsAny(t.S, " ") {
+		return t // short terms and atoms stay themselves (an alias would hide syntactic identity)
 	}
 	if v, ok := c.named[t.S]; ok {
 		return v
